@@ -196,7 +196,7 @@ def gen_values(sort_src, rng, p_hint, budget):
     """small-input domain for one parameter, by its declared sort (text of the annotation)"""
     s = sort_src.replace(' ', '')
     if s == 'Int':
-        return list(range(-1, 5))
+        return list(range(-1, 5)) + [6, 10]
     if s == 'Bool':
         return [False, True]
     if s == 'Real':
@@ -281,7 +281,7 @@ def search(ctx, q, seed=0, budget=300, max_calls=20000, stop_on_first=True):
         for cn in cnames:
             vals = []
             for cv in cases[cn]:
-                vals += {'int': [0, 1, 42], 'none': [None], 'empty_dict': [{}]}.get(cv, [cv]) if isinstance(cv, str) else [cv]
+                vals += {'int': [0, 1, 2, 3, 42], 'none': [None], 'empty_dict': [{}], 'pair': [(a, b) for a in range(0, 4) for b in range(a, 5)], 'triple': [(1, 2, 3), (0, 0, 0)]}.get(cv, [cv]) if isinstance(cv, str) else [cv]
             doms.append(vals)
         doms += [gen_values(ast.unparse(a), rng, None, budget) for _, a in gnames]
     except KeyError as e:
